@@ -137,8 +137,45 @@ def run_case(case):
     log = []
     report = os.path.join(top, "child-monitors.jsonl")
 
+    nrec = [0]
+
+    def audit_events(mod, args, rc):
+        """Offline check of the command's own event log (recorded inside the child): a
+        command that exited 0 must itself have written every chunk of the scales it is
+        responsible for - reading the dataset back cannot tell a chunk written now from one
+        left by an earlier run."""
+        recs = cli.read_records(report, nrec[0])
+        nrec[0] += len(recs)
+        resp = {"volume_to_precomputed": "first", "slices_to_precomputed": "first",
+                "compute_scales": "rest", "volume_to_precomputed_pyramid": "all",
+                "convert_chunks": "all"}.get(mod)
+        if rc != 0 or resp is None or "--generate-info" in args or not recs:
+            return
+        dest = args[-1]
+        try:
+            with open(os.path.join(dest, "info")) as fh:
+                scales = json.load(fh)["scales"]
+        except Exception:  # noqa: BLE001
+            return
+        want = {"first": scales[:1], "rest": scales[1:], "all": scales}[resp]
+        wrote = {}
+        for k, c in recs[-1].get("written", []):
+            wrote[(k, tuple(c))] = wrote.get((k, tuple(c)), 0) + 1
+        grid = {(sc["key"], c) for sc in want for c in _chunks(sc)}
+        obs["event_log_audits"] = obs.get("event_log_audits", 0) + 1
+        obs["write_events_audited"] = obs.get("write_events_audited", 0) + len(wrote)
+        obs["chunks_written_more_than_once"] = obs.get(
+            "chunks_written_more_than_once", 0) + sum(1 for n in wrote.values() if n > 1)
+        lost = sorted(grid - set(wrote))
+        if lost:
+            v.append({"kind": "successful-command-did-not-write-all-its-chunks",
+                      "detail": f"{ctx}: `{mod}` exited 0 but its own event log lacks "
+                      f"{len(lost)} of {len(grid)} chunks it is responsible for, e.g. "
+                      f"{lost[0]}"})
+
     def run(mod, *args, expect_ok=True):
         rc, tail, out = cli.run(mod, args, report=report)
+        audit_events(mod, args, rc)
         obs["commands_run"] += 1
         log.append(f"{mod} {' '.join(a if len(a) < 40 else '...' + a[-25:] for a in args)} "
                    f"-> {rc}")
@@ -369,4 +406,5 @@ def gates(obs, tier):
         "monitors_active_inside_the_command_processes": obs.get("child_processes", 0) > 50
         and obs.get("child_contract_evaluations", {}).get("downscale", 0) > 100
         and obs.get("child_write_chunk_events", 0) > 100,
+        "event_logs_audited": obs.get("event_log_audits", 0) > 50,
     }
